@@ -6,6 +6,7 @@
 int drv_sched(int argc, char **argv);
 int drv_sweep(int argc, char **argv);
 int drv_cells(int argc, char **argv);
+int drv_entry(int argc, char **argv);
 int drv_ref(int argc, char **argv);
 int drv_threads(int argc, char **argv);
 int drv_sgl(int argc, char **argv);
@@ -43,6 +44,8 @@ main(int argc, char **argv)
                 return drv_threads(argc - 2, argv + 2);
         if (!strcmp(argv[1], "ref"))
                 return drv_ref(argc - 2, argv + 2);
+        if (!strcmp(argv[1], "entry"))
+                return drv_entry(argc - 2, argv + 2);
         if (!strcmp(argv[1], "cells"))
                 return drv_cells(argc - 2, argv + 2);
         if (!strcmp(argv[1], "sweep"))
